@@ -148,7 +148,9 @@ Definition run_kill (x : sx) : sx :=
   | _ => err "bad case"
   end.
 
-(* leg coldstart: case ( k after_kill [addr] ), addr = tcp (default) | uds_plain | uds_symlink | uds_dotdot | uds_dot |
+(* leg coldstart: case ( k after_kill [addr [env]] ), env = plain | xdg_ok | xdg_stale | xdg_notdir | xdg_empty |
+   home_unset | home_stale | home_notdir | tmpdir_ok | tmpdir_stale | all_stale: the clients' environment; a row
+   `spawn_err` exists only where the model says the rendezvous directory cannot be created (TMPDIR unusable), addr = tcp (default) | uds_plain | uds_symlink | uds_dotdot | uds_dot |
    uds_abstract: the server address is the TCP port or a Unix socket whose path is spelled canonically or not.  The
    `started` row uses what the model's server reports for that address (no `wrong_addr` row exists: the model's
    server never reports another address).  No server on a fresh address, k real clients released together.  Which
@@ -171,14 +173,29 @@ Definition dec_saddr (k : sx) : saddr :=
   else if is_sym "uds_abstract" k then UdsAbstract (bs "vh")
   else TcpPort 1.
 
+Definition dec_env (k : sx) : client_env :=
+  let bad := Some DirUnusable in
+  let ok := Some DirUsable in
+  if is_sym "xdg_ok" k then {| e_tmpdir := None; e_xdg_runtime := ok; e_home := ok |}
+  else if is_sym "xdg_stale" k || is_sym "xdg_notdir" k then {| e_tmpdir := None; e_xdg_runtime := bad; e_home := ok |}
+  else if is_sym "home_unset" k then {| e_tmpdir := None; e_xdg_runtime := None; e_home := None |}
+  else if is_sym "home_stale" k || is_sym "home_notdir" k then {| e_tmpdir := None; e_xdg_runtime := None; e_home := bad |}
+  else if is_sym "tmpdir_ok" k then {| e_tmpdir := ok; e_xdg_runtime := None; e_home := ok |}
+  else if is_sym "tmpdir_stale" k then {| e_tmpdir := bad; e_xdg_runtime := None; e_home := ok |}
+  else if is_sym "all_stale" k then {| e_tmpdir := None; e_xdg_runtime := bad; e_home := bad |}
+  else {| e_tmpdir := None; e_xdg_runtime := None; e_home := ok |}.
+
 Definition run_coldstart (x : sx) : sx :=
   let a := dec_saddr (nth 2 (get_L x) (SN 0)) in
+  let env := dec_env (nth 3 (get_L x) (SN 0)) in
+  let started_rep := spawn_report env (report_of_started_server a) in
+  let lost_rep := spawn_report env SAddrInUse in
   let bytes := frame (encode_compile_response CompileStarted) ++ frame (encode_finished fin0) in
   let row name first rep later :=
       SL (sym name :: enc_process (compile_process opq0 false first rep later bytes Eof)) in
   SL [ row "existing" AOk SSpawnErr [];
-       row "started" ARefused (report_of_started_server a) [ARefused; AOk];
-       row "addr_in_use" ARefused SAddrInUse [ARefused; AOk];
+       row (match started_rep with SSpawnErr => "spawn_err" | _ => "started" end) ARefused started_rep [ARefused; AOk];
+       row (match lost_rep with SSpawnErr => "spawn_err" | _ => "addr_in_use" end) ARefused lost_rep [ARefused; AOk];
        row "timed_out" ARefused STimedOut [AOk];
        row "start_err" ARefused SErr [AOk];
        row "no_listener" ARefused SAddrInUse [] ].
@@ -237,6 +254,21 @@ Definition run_vanish (x : sx) : sx :=
   | _ => err "bad case"
   end.
 
+(* leg bigout: case ( cap noise status #last ).  The compiler writes `noise` bytes 'w', a newline, `last`, a newline
+   to stderr and exits `status`; the server's frame limit is `cap`.  Output: the client leg's first four fields,
+   then `complete` (the client's stderr carries the compiler's whole output) and `ok` (object correct when status 0). *)
+Definition run_bigout (x : sx) : sx :=
+  match x with
+  | SL [cap; noise; st; SB last] =>
+      let f := {| f_retcode := Some (get_N st); f_signal := None; f_stdout := [];
+                  f_stderr := repeat 119 (N.to_nat (get_N noise)) ++ [10] ++ last ++ [10]; f_color := 2 |} in
+      match run_client (SL [SN 0; SB (server_reply (get_N cap) f); sym "eof"; st]) with
+      | SL [k; w; e; r; _] => SL [k; w; e; r; sym "complete"; sym "ok"]
+      | y => y
+      end
+  | _ => err "bad case"
+  end.
+
 Definition dispatch (leg : list N) (x : sx) : sx :=
   if bytes_eqb leg (bs "client") then run_client x
   else if bytes_eqb leg (bs "decode_resp") then enc_response (decode_response opq0 (get_B x))
@@ -244,6 +276,7 @@ Definition dispatch (leg : list N) (x : sx) : sx :=
   else if bytes_eqb leg (bs "server") then run_server x
   else if bytes_eqb leg (bs "kill") then run_kill x
   else if bytes_eqb leg (bs "vanish") then run_vanish x
+  else if bytes_eqb leg (bs "bigout") then run_bigout x
   else if bytes_eqb leg (bs "coldstart") then run_coldstart x
   else if bytes_eqb leg (bs "poison") then run_poison x
   else err "unknown leg".
